@@ -43,6 +43,7 @@ type FuncSpec struct {
 	LoopMod  map[int][]string
 	Inline   bool
 	Budget        int  // seconds: solver budget for the retry of this function's obligations (heavy bit-vector proofs)
+	ExPat         bool // existential quantifiers over one slice index are rewritten to absolute positions with a trigger
 	Yields        bool // sync.Cond.Wait releases the lock: every heap is arbitrary afterwards (other goroutines ran)
 	MapOrder      bool // static obligation: no result depends on map iteration order (every map range only collects into a slice that is sorted before any other use)
 	Deterministic bool // static obligation: no map range, select, go, time/rand/env calls, no reads of package variables
@@ -366,6 +367,8 @@ func (db *SpecDB) parseClause(fs *FuncSpec, word, rest string, line int) error {
 		fs.Deterministic = true
 	case "yields":
 		fs.Yields = true
+	case "expat":
+		fs.ExPat = true
 	case "maporder":
 		fs.MapOrder = true
 	case "inline":
